@@ -130,6 +130,8 @@ def make_rule(name):
         return P.RewriteRule(lambda op, x: op.Add(x, x), rep, name=name)
     if name == "fn":
         return P.RewriteRule(lambda op, x, y: op.Add(op.Neg(x), y), lambda op, x, y: op.NegAdd(x, y, _domain="custom"), name=name, as_function=True)
+    if name == "drop":     # binds only the first output of Dropout (inference mode: the identity)
+        return P.RewriteRule(lambda op, x: op.Dropout(x), lambda op, x: op.Identity(x), name=name)
     if name == "ext":      # the replacement lives in a domain the host model does not import (ext::MyRelu is a model-local function)
         return P.RewriteRule(lambda op, x: op.Relu(x), lambda op, x: op.MyRelu(x, _domain="ext"), name=name)
     if name in ("dag", "dagr"):   # as_function over a DAG pattern: the interior value a is used twice
@@ -513,6 +515,7 @@ VACUITY = (("Rewrite_vacuity_NeverRewrites.cfg", "no rule application is reachab
            ("Rewrite_vacuity_NeverNested.cfg", "no rule application inside an If/Loop body is reachable"),
            ("Rewrite_vacuity_NeverOverlaps.cfg", "no application that matches a node created by an earlier application is reachable"),
            ("Rewrite_vacuity_NeverNeedsDeviation.cfg", "no behaviour needs a deviation"),
+           ("Rewrite_vacuity_NeverDeclinesUnremovable.cfg", "no host keeps a match whose extra output is read elsewhere while rewriting another"),
            ("Rewrite_canfail.cfg", "the property invariant cannot fail (the implementation model with its deviations passes it)"))
 
 
@@ -657,6 +660,7 @@ def run(ctx: core.Ctx):
     ctx.assumptions += [
         "values are FLOAT scalars holding small integers; equivalence is judged on the 8 inputs of Rewrite!InputSeq (a in {-2,3}, b in {-1,5}, c in {T,F})",
         "generated rules: negneg, keep(remove_nodes=False), relurelu, mul1, subneg, addsum, dbl(new initializer), fn(as_function), pair(two output nodes), "
+        "drop(Dropout(x) -> Identity(x): hosts whose Dropout has a mask output that is unused / read by an unmatched node), "
         "ext(replacement in a domain the host does not import), dag/dagr(as_function over a DAG pattern with a shared interior value), dagm(as_function, two outputs); "
         "replacement = pattern by construction and not an instance of the pattern",
         "a rule that creates initializers is declined inside a function by design (documented TODO): not counted as missing progress",
